@@ -135,7 +135,40 @@ pub fn post_bytes() -> Vec<u8> {
 }
 
 pub fn name_bytes() -> Vec<u8> {
-    let strs: [(u16, &str); 3] = [(1, "Verif"), (2, "Regular"), (6, "Verif-Regular")];
+    name_bytes_for(0)
+}
+
+/// FNV-1a over the fields of a case: a deterministic source of variation that needs no new field
+pub fn case_hash(p: &[&str]) -> u64 {
+    let mut h: u64 = 0xcbf29ce484222325;
+    for f in p {
+        for b in f.bytes() {
+            h = (h ^ b as u64).wrapping_mul(0x100000001b3);
+        }
+        h = (h ^ 0x7c).wrapping_mul(0x100000001b3);
+    }
+    h
+}
+
+/// the `name` table of a synthetic font; the family name depends on `seed`: short ASCII (half of the cases),
+/// long ASCII, or long with letters of 2, 3 and 4 UTF-8 bytes at varying positions (instancing derives a
+/// PostScript name from it and has to shorten long ones)
+pub fn name_bytes_for(seed: u64) -> Vec<u8> {
+    let mut x = seed;
+    let mut next = || {
+        x = x.wrapping_mul(6364136223846793005).wrapping_add(1442695040888963407);
+        (x >> 33) as usize
+    };
+    let family: String = match seed % 4 {
+        0 | 1 => "Verif".to_string(),
+        2 => (0..40 + next() % 50).map(|i| (b'A' + (i % 26) as u8) as char).collect(),
+        _ => {
+            let alphabet = ['a', 'B', '\u{e9}', '\u{436}', '\u{6f22}', '\u{10437}', 'z', '\u{df}', ' ', '-'];
+            (0..30 + next() % 60).map(|_| alphabet[next() % alphabet.len()]).collect()
+        }
+    };
+    let full = format!("{}-Regular", family);
+    let strs: [(u16, &str); 4] = [(1, &family), (2, "Regular"), (6, &full), (16, &family)];
     let mut v = vec![];
     be16(&mut v, 0);
     be16(&mut v, strs.len() as u16);
@@ -335,17 +368,23 @@ pub fn hvar_bytes(ivs: &[u8], adv: &Option<Vec<u8>>, lsb: &Option<Vec<u8>>) -> V
 }
 
 pub fn mvar_bytes(ivs: &[u8], recs: &[(u32, u16, u16)]) -> Vec<u8> {
+    // valueRecordSize is the pitch of the records and may exceed the 8 bytes a record uses today
+    // (8, 10, 12 or 14 here, a function of the records so that no new case field is needed)
+    let size = 8 + 2 * ((recs.len() + recs.iter().map(|r| r.2 as usize).sum::<usize>()) % 4);
     let mut v = vec![];
     be16(&mut v, 1);
     be16(&mut v, 0);
     be16(&mut v, 0);
-    be16(&mut v, 8);
+    be16(&mut v, size as u16);
     be16(&mut v, recs.len() as u16);
-    be16(&mut v, (12 + 8 * recs.len()) as u16);
+    be16(&mut v, (12 + size * recs.len()) as u16);
     for (tg, o, i) in recs {
         be32(&mut v, *tg);
         be16(&mut v, *o);
         be16(&mut v, *i);
+        for k in 8..size {
+            v.push(0xA0 + k as u8);
+        }
     }
     v.extend_from_slice(ivs);
     v
@@ -515,7 +554,7 @@ pub fn e2e_font(p: &[&str]) -> (Vec<(u32, Vec<u8>)>, Vec<Fixed>) {
         (t(b"hmtx"), hmtx),
         (t(b"loca"), loca),
         (t(b"maxp"), maxp_bytes(n as u16)),
-        (t(b"name"), name_bytes()),
+        (t(b"name"), name_bytes_for(case_hash(p))),
         (t(b"post"), post),
     ];
     if p[5] != "-" {
